@@ -542,6 +542,51 @@ def rule_d(ctx, out):
             else:
                 out.bad(f"simplifier-of:{cname}:changes-truth-value:{'literals' if isinstance(a, int) and isinstance(b, int) else 'terms'}",
                         f"`({cname} {a!r} {b!r})` is built as {res!r}", where(mod, REG.entries[cname].get('node') if False else None))
+    # n-ary integer-sorted connectors (chainable / pairwise): every tuple of 2..3 (thorough: 4) arguments over three literals and an
+    # integer term; whatever is built must have the truth value of the unsimplified formula for every value of the term
+    NARY = {"=": lambda v: all(a == v[0] for a in v), "distinct": lambda v: len(set(v)) == len(v),
+            "<": lambda v: all(a < b for a, b in zip(v, v[1:])), "<=": lambda v: all(a <= b for a, b in zip(v, v[1:])),
+            ">": lambda v: all(a > b for a, b in zip(v, v[1:])), ">=": lambda v: all(a >= b for a, b in zip(v, v[1:]))}
+
+    def ival(f, env):
+        if isinstance(f, bool):
+            return f
+        if isinstance(f, int):
+            return f
+        if isinstance(f, Atom):
+            return env[f.n]
+        if isinstance(f, FakeConn) and f.connector_name in NARY:
+            return NARY[f.connector_name]([ival(a, env) for a in f.arguments])
+        if isinstance(f, FakeConn):
+            return _truth(FakeConn(f.connector_name, False, *[ival(a, env) if isinstance(a, FakeConn) else a for a in f.arguments]), env)
+        raise Unsupported(f"cannot evaluate {f!r}")
+    envs = [{"x": k} for k in range(4)]
+    for cname in sorted(NARY):
+        e = REG.entries.get(cname)
+        if e is None:
+            continue
+        lengths = [2, 3, 4] if (e["arity"] == -1 and ctx.tier == "thorough") else [2, 3] if e["arity"] == -1 else [e["arity"]] if e["arity"] >= 2 else []
+        for k in lengths:
+            for args in itertools.product([0, 1, 2, x], repeat=k):
+                try:
+                    res = REG.create_connector_and_simplify(cname, *args)
+                except Raised as ex:
+                    out.bad(f"simplifier-of:{cname}:raises", f"the simplifier registered for \"{cname}\" raises {ex.what} on {args!r}", where(mod))
+                    continue
+                except Unsupported as ex:
+                    raise AnalysisError(f"simplifier of \"{cname}\": cannot evaluate abstractly on {args!r}: {ex}")
+                try:
+                    want = [NARY[cname]([ival(a, env) for a in args]) for env in envs]
+                    got = [ival(res, env) for env in envs]
+                except Unsupported as ex:
+                    raise AnalysisError(f"simplifier of \"{cname}\": result {res!r} outside the evaluated domain: {ex}")
+                if got == want:
+                    out.ok()
+                else:
+                    lits = all(isinstance(a, int) for a in args)
+                    out.bad(f"simplifier-of:{cname}:changes-truth-value:{'literals' if lits else 'terms'}:{k}-ary",
+                            f"`({cname} {' '.join(map(repr, args))})` is built as {res!r}: for x = {envs[[i for i in range(4) if got[i] != want[i]][0]]['x']} the formula is "
+                            f"{want[[i for i in range(4) if got[i] != want[i]][0]]}", where(mod), {"arguments": repr(args), "built": repr(res)})
     # informational: bool/int literal folding in _simplify_equal
     out.info["literal_typing"] = "_simplify_equal folds a bool/int literal pair with Python == (add_eq(True, 1) -> True); the unsimplified formula is ill-sorted"
 
